@@ -41,3 +41,9 @@ Theorem c13_unique (C O : IPS) (X : C -> O) :
   forall y c c', (forall d, X d = vzero -> d = vzero) -> normal_eq C O X y c -> normal_eq C O X y c' -> c = c'.
 Proof. intros Ha Hs y c c'. exact (minimiser_unique C O X Ha Hs y c c'). Qed.
 Print Assumptions c13_unique.
+
+(** The remaining source this property rests on is the recorded one (the six solver modules and solver_funcs): whole-function match,
+    regenerated on every run (closes the gap between "the expected statements are present" and "nothing else was added"). *)
+From SymfcG Require Import ShapesSolvers.
+Theorem c13_recorded_sources2_in_force : ShapesSolvers_as_recorded = true.
+Proof. repeat split; reflexivity. Qed.
